@@ -61,3 +61,15 @@
 #include <compat/libc/stdlib/rand.c>
 #include <compat/libc/stdlib/qsort.c>
 #include <compat/libc/stdlib/bsearch.c>
+
+/* ---- read-outs of what the compiled code contains (ops `consts`, `ctype`) ---- */
+size_t igv_rand_state_size(void) { return sizeof seed; }
+unsigned long long igv_rand_state(void) { return (unsigned long long) seed; }
+int igv_rand_state_unsigned(void) { return (__typeof__(seed)) -1 > 0; }
+int igv_erange(void) { return ERANGE; }
+int igv_einval(void) { return EINVAL; }
+/* bit 0 isspace, 1 isdigit, 2 isalpha, 3 isupper, 4 isxdigit - the
+ * classification the code above was compiled with */
+int igv_ctype_bits(int c) {
+	return (isspace(c) ? 1 : 0) | (isdigit(c) ? 2 : 0) | (isalpha(c) ? 4 : 0) | (isupper(c) ? 8 : 0) | (isxdigit(c) ? 16 : 0);
+}
